@@ -189,11 +189,11 @@ impl Prop for C15 {
                 property: "C15",
                 target: "cq_memory",
                 asan: true,
-                runs: 150_000,
+                runs: 100_000,
                 max_len: 600,
                 seed,
                 seeds: crate::fuzz::random_seeds(seed, 24, 600),
-                max_time: 1500,
+                max_time: 1200,
             },
             ev,
         ));
